@@ -105,6 +105,61 @@ func (ps *pathState) index(idx value, n int) int {
 	return int(k)
 }
 
+// selectByteTerm: table[i] as a balanced tree over the bits of i (depth log n; entries beyond n
+// repeat the last one).
+func selectByteTerm(i *smt.Term, table string) (*smt.Term, bool) {
+	n, w := len(table), i.Width
+	if n == 0 {
+		return nil, false
+	}
+	bits := 0
+	for (1 << uint(bits)) < n {
+		bits++
+	}
+	if bits > w {
+		bits = w
+	}
+	var build func(base, bit int) *smt.Term
+	build = func(base, bit int) *smt.Term {
+		if bit < 0 {
+			k := base
+			if k >= n {
+				k = n - 1
+			}
+			return smt.BV(uint64(table[k]), 8)
+		}
+		lo, hi := build(base, bit-1), build(base|(1<<uint(bit)), bit-1)
+		if lo == hi {
+			return lo
+		}
+		return smt.Ite(smt.Eq(smt.Extract(i, bit, bit), smt.BV(1, 1)), hi, lo)
+	}
+	return build(0, bits-1), true
+}
+
+// selectByte: table[idx] for a symbolic idx that is decided to be in range: an if-then-else chain.
+func (ps *pathState) selectByte(idx sym, table string) value {
+	n := len(table)
+	w := idx.t.Width
+	var inb *smt.Term
+	switch {
+	case kindSigned(idx.k):
+		inb = smt.And(smt.BvCmp(smt.OpBvSle, smt.BV(0, w), idx.t), smt.BvCmp(smt.OpBvSlt, idx.t, smt.BV(uint64(n), w)))
+	case w < 64 && uint64(n) >= uint64(1)<<uint(w):
+		inb = smt.True
+	default:
+		inb = smt.BvCmp(smt.OpBvUlt, idx.t, smt.BV(uint64(n), w))
+	}
+	if !ps.decide(inb) {
+		panic(fmt.Sprintf("runtime error: index out of range [symbolic] with length %d", n))
+	}
+	t, _ := selectByteTerm(idx.t, table)
+	if t.IsConst() {
+		return uint8(t.Val)
+	}
+	return sym{t: t, k: types.Uint8, ps: ps}
+}
+
 func sendChecked(ch chan value, v value) {
 	defer func() {
 		if r := recover(); r != nil {
